@@ -45,16 +45,28 @@ def gen_case(rng, tier, idx):
     else:
         rows = np.array([[int(rng.randint(s)) for s in shape] for _ in range(npub)])
     rows = rows.reshape(npub, len(attrs)).astype(int)
+    conflict = len(attrs) >= 2 and rng.rand() < 0.25
+    if conflict:
+        # perfectly correlated public attributes facing measurements that disagree with each other: no weighting can
+        # fit both, so every step trades one misfit against the other
+        pc = 'correlated'
+        rows[:, 1] = rows[:, 0] % shape[1]
     N = float(gen.pick(rng, [17, 1000, 123456]))
     sig = [1e-3, 0.1, 1.0, 10.0, 100.0]
     calls = []
     for c in range(int(gen.pick(rng, [1, 1, 2, 3]))):
         meas, _ = measure.gen_measurements(rng, attrs, shape, 1, 4, N=N, sigmas=sig, max_cells=64,
                                            qkinds=['identity', 'identity', 'dense', 'prefix', 'sparse', 'tall', 'total_row'])
+        if conflict:
+            meas = []
+            for a_, sg in zip(attrs[:2], [float(gen.pick(rng, [0.1, 1.0])), float(gen.pick(rng, [1.0, 10.0]))]):
+                n_ = shape[attrs.index(a_)]
+                p_ = rng.dirichlet(np.ones(n_) * 0.5)
+                meas.append(dict(Q=np.eye(n_), kind='identity', y=N * p_ + rng.normal(0, sg, n_), sigma=sg, proj=(a_,)))
         total = None if rng.rand() < 0.4 else float(gen.pick(rng, [N, N, 1.0, 1e6, 3.5]))
         calls.append(dict(meas=meas, total=total))
     return dict(attrs=attrs, shape=shape, rows=rows, public_class=pc, N=N, calls=calls,
-                spellings=gen.pick(rng, ['dense', 'csr']))
+                spellings=gen.pick(rng, ['dense', 'csr']), metric=gen.pick(rng, ['L2', 'L2', 'L2', 'L1']))
 
 
 def describe(case):
@@ -63,7 +75,7 @@ def describe(case):
                        for c in case['calls']])
 
 
-def weighted_loss(attrs, shape, rows, w, plain, with_cond=False):
+def weighted_loss(attrs, shape, rows, w, plain, with_cond=False, metric='L2'):
     """0.5 * sum ||(Q m - y)/sigma||^2 with m the weighted contingency table of the public records."""
     f = 0.0
     cond = 0.0   # first-order sensitivity of the loss to a relative perturbation of the table: sum |r/sigma| |Q||x| / sigma
@@ -77,8 +89,8 @@ def weighted_loss(attrs, shape, rows, w, plain, with_cond=False):
             T[k] = v
         x = T.reshape(-1)
         r_ = ((x if Q is None else Q @ x) - y) / s
-        f += 0.5 * float(r_ @ r_)
-        cond += float(np.abs(r_) @ ((np.abs(x) if Q is None else np.abs(Q) @ np.abs(x)) / s))
+        f += 0.5 * float(r_ @ r_) if metric == 'L2' else float(np.abs(r_).sum())
+        cond += float((np.abs(r_) if metric == 'L2' else np.ones_like(r_)) @ ((np.abs(x) if Q is None else np.abs(Q) @ np.abs(x)) / s))
     return (f, cond) if with_cond else f
 
 
@@ -95,7 +107,9 @@ def run_case(case, ctx):
     if n < 2:
         ctx.trivial = True
     rows_digest = array_digest(np.ascontiguousarray(pub.df.values))
-    eng = m.PublicInference(pub)
+    metric = case.get('metric', 'L2')
+    ctx.tag('metric:' + metric)
+    eng = m.PublicInference(pub, metric=metric)
     for k, call in enumerate(case['calls']):
         meas = call['meas']
         tuples = [(Q, y, s, tuple(p)) for Q, y, s, p in measure.as_tuples(meas, [case['spellings']] * len(meas))]
@@ -127,20 +141,20 @@ def run_case(case, ctx):
             # set; the reused object is judged for validity, total and unchanged records above.
             ctx.tag('repeat_call_on_one_object')
             with np.errstate(all='ignore'):
-                fresh = m.PublicInference(m.Dataset(pd.DataFrame(rows, columns=attrs), dom)).estimate(tuples, total=call['total'])
+                fresh = m.PublicInference(m.Dataset(pd.DataFrame(rows, columns=attrs), dom), metric=metric).estimate(tuples, total=call['total'])
             w = np.asarray(fresh.weights, dtype=float)
             if not (w.shape == (n,) and np.isfinite(w).all() and (w >= 0).all()):
                 ctx.check(False, 'weights_valid', 'invalid_weights', what + 'fresh object returned invalid weights')
                 return
         T = float(w.sum())
-        f, cond = weighted_loss(attrs, shape, rows, w, plain, with_cond=True)
-        fu = weighted_loss(attrs, shape, rows, np.ones(n) * T / n, plain)
+        f, cond = weighted_loss(attrs, shape, rows, w, plain, with_cond=True, metric=metric)
+        fu = weighted_loss(attrs, shape, rows, np.ones(n) * T / n, plain, metric=metric)
         ctx.stat('loss_over_uniform', f / fu if fu > 0 else 1.0)
         # the two tables are sums of n float weights: equal weightings differ by ~n ulp, amplified by |Q||x|/sigma
         # (thorough tier: 1e-8 relative with counts 1e5 and noise 1e-3 on identical public records)
         ctx.check(f <= fu * (1 + 1e-9) + 1e-12 + 1e-13 * cond, 'fit_not_worse_than_uniform', 'worse_than_uniform',
-                  what + 'loss %r of the reweighted public data exceeds %r of the uniformly weighted data (%d records, class %s)' % (
-                      f, fu, n, case['public_class']))
+                  what + '%s loss %r of the reweighted public data exceeds %r of the uniformly weighted data (%d records, class %s)' % (
+                      metric, f, fu, n, case['public_class']))
         if ctx.failures:
             return
 
